@@ -1,4 +1,5 @@
 import ThruVerif.Model.Url
+import ThruVerif.Gen.Shapes
 /-!
 # C16 — Clients work against every documented server configuration
 
@@ -308,5 +309,14 @@ theorem C16_session (id code : Bytes) (now ttl : Nat) :
 
 theorem C16_ws_scheme : wsScheme [0x68, 0x74, 0x74, 0x70] = [0x77, 0x73] ∧ wsScheme [0x68, 0x74, 0x74, 0x70, 0x73] = [0x77, 0x73, 0x73] := by
   decide
+
+open TV.Gen.Shapes in
+/-- both clients keep of a `turn_credentials` envelope exactly the list the server issued: the handler passes `creds.Servers`,
+`setTurnServersIfEmpty` stores a copy of its parameter and never rewrites it (no splitting, trimming or filtering between the minted
+URL and `parseTurnServer`, which `C16_turn` is about) -/
+theorem C16_source_turn_intake :
+    sender_turn_intake_args = ["creds.Servers"] ∧ receiver_turn_intake_args = ["creds.Servers"] ∧
+    sender_turn_keep = ["append([]string{}, servers...)"] ∧ receiver_turn_keep = ["append([]string{}, servers...)"] ∧
+    sender_turn_rewrite = [] ∧ receiver_turn_rewrite = [] := by decide
 
 end TV.Url
